@@ -789,6 +789,80 @@ def channel_values(spec):
     return out
 
 
+# ---- wave 8: a stock starts at its initial value — also when that value is an element re-parameterised after the build
+def reparam_cases(rng, n):
+    """small models whose stock initial value is a Constant (or a Converter of a constant) that already holds a number when
+    the stock's function string is built; afterwards the constant gets a new number through one of the routes the API offers"""
+    out = []
+    tables = {"tbl": [[0.0, 1.0], [1.0, 3.0], [2.5, 2.0], [4.0, 6.0]]}
+    for i in range(n):
+        old, new = rng.choice([1.0, 2.0, 0.5, 4.0, 0.0]), rng.choice([3.0, 8.0, -1.0, 0.25, 0.0, 10.0])
+        if old == new:
+            new = old + 1.5
+        dt = rng.choice([1.0, 0.5, 0.25])
+        start = rng.choice([0.0, 1.0])
+        steps = rng.range(2, 4)
+        via_conv = rng.chance(1, 3)
+        els = [("k0", "constant", old)]
+        if via_conv:
+            els.append(("kc", "converter", ("mul", ("ref", "k0"), ("num", 2.0))))
+        els.append(("f0", "biflow", rng.choice([("num", 1.0), ("mul", ("ref", "s0"), ("num", 0.5)), ("sub", ("ref", "k0"), ("ref", "s0"))])))
+        els.append(("s0", "stock", (("ref", "kc" if via_conv else "k0"), ("ref", "f0"))))
+        spec = {"start": start, "dt": dt, "stop": start + steps * dt, "n": steps, "tables": tables, "els": els, "vsize": 0}
+        for route in ("element", "scenario", "session"):
+            out.append({"spec": spec, "route": route, "constant": "k0", "new": new})
+    return out
+
+
+def run_reparam(case):
+    """values of every element under the FINAL parameters, obtained through the route; {name: [values]}"""
+    from BPTK_Py import bptk
+    spec, route, new = case["spec"], case["route"], case["new"]
+    names = [n for n, _, _ in spec["els"]]
+    m, objs = build_real(spec)
+    if route == "element":
+        objs[case["constant"]].equation = new
+        from BPTK_Py.util import timerange
+        times = timerange(spec["start"], spec["stop"], spec["dt"], exclusive=False)
+        return {n: [float(m.evaluate_equation(n, t)) for t in times] for n in names}
+    bp = bptk()
+    try:
+        bp.register_scenario_manager({"smC01": {"model": m}})
+        if route == "scenario":
+            bp.register_scenarios(scenarios={"sc": {"constants": {case["constant"]: new}}}, scenario_manager="smC01")
+            df = bp.run_scenarios(scenarios=["sc"], scenario_managers=["smC01"], equations=names, return_format="df", series_names={})
+            col = lambda n: n if n in df.columns else "smC01_sc_%s" % n
+            return {n: [float(v) for v in df[col(n)]] for n in names}
+        bp.register_scenarios(scenarios={"sc": {}}, scenario_manager="smC01")
+        bp.begin_session(scenarios=["sc"], scenario_managers=["smC01"], equations=names, starttime=spec["start"], dt=spec["dt"])
+        vals = {n: [] for n in names}
+        for k in range(spec["n"] + 1):
+            r = bp.run_step(settings={"smC01": {"sc": {"constants": {case["constant"]: new}}}}) if k == 0 else bp.run_step()
+            for n in names:
+                vals[n] += [float(v) for _, v in sorted(r["smC01"]["sc"][n].items())]
+        bp.end_session()
+        return vals
+    finally:
+        bp.destroy()
+
+
+def reparam_fails(case):
+    """first difference between the route's values and the Euler reference under the final value of the constant"""
+    spec = dict(case["spec"])
+    spec["els"] = [(n, k, case["new"] if n == case["constant"] else p) for n, k, p in case["spec"]["els"]]
+    from BPTK_Py.util import timerange
+    times = timerange(spec["start"], spec["stop"], spec["dt"], exclusive=False)
+    ref = reference_euler(spec, times)
+    got = run_reparam(case)
+    for n, _, _ in spec["els"]:
+        if len(got[n]) != len(times):
+            return (n, len(got[n]), float("nan"), float(len(times)))
+        for k, (a, b) in enumerate(zip(got[n], ref[n])):
+            if a != float(b) and abs(a - float(b)) > 1e-9 * max(1.0, abs(float(b))):
+                return (n, k, a, float(b))
+    return None
+
+
 def simulate_real(spec):
     from BPTK_Py.util import timerange
     m, objs = build_real(spec)
@@ -1051,6 +1125,34 @@ def run(chk):
         if opaque:
             stats["opaque_models"] = stats.get("opaque_models", 0) + 1
             stats["opaque_within_tol" if ok_model else "opaque_divergent"] = stats.get("opaque_within_tol" if ok_model else "opaque_divergent", 0) + 1
+    # re-parameterisation after the build: element API, scenario constants, session settings
+    rp_cases = reparam_cases(chk.rng.fork("reparam"), 4 if chk.quick else 30)
+    stats["reparam_cases"] = {}
+    input_found = False
+    for case in rp_cases:
+        try:
+            d = reparam_fails(case)
+        except Exception as ex:
+            stats.setdefault("reparam_errors", []).append(f"{case['route']}: {type(ex).__name__}: {str(ex)[:100]}")
+            continue
+        stats["reparam_cases"][case["route"]] = stats["reparam_cases"].get(case["route"], 0) + 1
+        if d is not None:
+            # shrink: drop the intermediate converter / simplify the flow while it still fails
+            small = case
+            for cand_els in ([e for e in case["spec"]["els"] if e[0] != "kc"], ):
+                c2 = json.loads(json.dumps(case)); c2["spec"]["els"] = [(n, k, tuple_(p) if n != "s0" else ((("ref", "k0"), tuple_(p[1])))) for n, k, p in map(lambda e: (e[0], e[1], e[2]), cand_els)]
+                try:
+                    d2 = reparam_fails(c2)
+                    if d2 is not None:
+                        small, d = c2, d2
+                except Exception:
+                    pass
+            kd = next((k for n, k, _ in small["spec"]["els"] if n == d[0]), "?")
+            chk.add_finding("euler:" + kd, f"after `{small['constant']}` := {small['new']} through the {small['route']} route, element {d[0]} at grid index {d[1]} is {d[2]!r}, "
+                            f"explicit Euler under the final parameters gives {d[3]!r} (a stock starts at its initial value)",
+                            {"reparam": json.loads(json.dumps(small)), "element": d[0], "index": d[1], "observed": d[2], "expected": d[3]})
+            input_found = True
+            break
     n_lk, lk_bad = lookup_history_stream(chk.rng.fork("lookup"), 200 if chk.quick else 3000)
     stats["lookup_history_values"] = n_lk
     if lk_bad is not None or not lk_stateless:
@@ -1085,7 +1187,7 @@ def run(chk):
         spec, cname, d = chan_fail
         chk.add_finding("euler-channel:" + cname, f"{cname}: element {d[0]} at grid index {d[1]} reports {d[2]!r}, explicit Euler {d[3]!r} (dt={spec['dt']}, start={spec['start']})",
                         {"spec": json.loads(json.dumps({k: v for k, v in spec.items() if not k.startswith('_')})), "channel": cname, "element": d[0], "index": d[1], "observed": d[2], "expected": d[3]})
-    if not ok and ref_fail is None:
+    if not ok and ref_fail is None and not input_found:
         chk.add_finding("obligation", f"proof obligations of C01 no longer check: {why}; unthreaded operands: {unthreaded}",
                         {"theorem": "Bptk.C01.Gen.* (tableOK / shiftOK / skeleton shapes)", "detail": why, "unthreaded": unthreaded}, found_input=False)
     if corr is not None and ref_fail is None:
@@ -1094,9 +1196,19 @@ def run(chk):
                         {"correspondence": "Drive/C01 (evalM on doubles) vs Element.__call__", "spec": json.loads(json.dumps(spec)), "detail": msg}, found_input=False)
 
 
+def tuple_(x):
+    return tuple(tuple_(y) for y in x) if isinstance(x, (list, tuple)) else x
+
+
 def replay(path):
     quiet_bptk_logging()
     r = json.load(open(path))["replay"]
+    if "reparam" in r:
+        case = r["reparam"]
+        case["spec"]["els"] = [(n, k, tuple_(p)) for n, k, p in case["spec"]["els"]]
+        d = reparam_fails(case)
+        print("re-parameterisation", case["route"], case["constant"], ":=", case["new"], "-> first difference", d)
+        return 1 if d else 0
     if "lookup_history" in r and "history" in r["lookup_history"]:
         h = r["lookup_history"]
         m = scratch(); m.points["tbl"] = [list(q) for q in h["table"]]
